@@ -1744,8 +1744,10 @@ def call_opaque(ex, st, f: Opaque, args, kwargs):
     if spec is None and f.kind == "Any":
         # calling an arbitrary value: nothing is known about the result (noted in the evidence)
         st.notes.append("call of an arbitrary value: result unconstrained")
-        st.trace.append(("call", "Any.__call__", f, tuple(args), ()))
-        yield st, Opaque("Any")
+        st.trace.append(("call", "Any.__call__", f, tuple(args), tuple(sorted(kwargs.items(), key=lambda kv: kv[0]))))
+        r = Opaque("Any")
+        st.trace.append(("ret", "Any.__call__", r))
+        yield st, r
         return
     if spec is None:
         raise U(f"call of opaque {f.kind} has no assumed contract")
